@@ -33,7 +33,9 @@ type ACLCase struct {
 	AuditDownFrom int `json:"audit_down_from,omitempty"`
 }
 
-var c01Names = []string{"a", "b", "dev/a", "dev/b", "prod/a", "a*", "a\nb", "_internal/x", "", "a", "dev/a", "a ", " dev/a", "_internal", "prod/b|a", "b|a"}
+var c01Names = []string{"a", "b", "dev/a", "dev/b", "prod/a", "a*", "a\nb", "_internal/x", "", "a", "dev/a", "a ", " dev/a", "_internal", "prod/b|a", "b|a",
+	// spellings that a path cleaner would map onto another secret's name: names are opaque strings
+	"dev/../prod/a", "dev/a/", "dev//a", "./a", "dev/./a", "prod/a/.."}
 var c01Patterns = []string{"*", "dev/*", "*a", "d*/a", "**", "", "a*", "*/*", "prod/*", "_internal/*", "a\n*", "b",
 	// literal text on both sides of a '*' whose pieces would overlap in an existing name
 	"a*a", "prod/*/a", "dev/*/a", "dev/a*a", "b*b",
@@ -145,7 +147,8 @@ func runC01(t *testing.T, c ACLCase) (*h.Violation, h.Info) {
 	if len(c.Others) > 0 {
 		info.Class(fmt.Sprintf("restricted-callers-%d", 1+len(c.Others)))
 	}
-	var tgt, twinTgt dbx.Target = dbx.DBTarget{D: d}, dbx.DBTarget{D: twin}
+	keep := &dbx.Retained{}
+	var tgt, twinTgt dbx.Target = dbx.DBTarget{D: d, Keep: keep}, dbx.DBTarget{D: twin}
 	var ht, htTwin *dbx.HTTPTarget
 	tr := dbx.NewTracker()
 	if c.HTTP {
@@ -246,6 +249,10 @@ func runC01(t *testing.T, c ACLCase) (*h.Violation, h.Info) {
 			}
 		} else if got.Class == model.OK {
 			sawAllowed = true
+		}
+		if msg := keep.Unchanged(); msg != "" {
+			// what one caller was shown must not turn into what another caller is shown later
+			return h.V("list-shows-exactly-info-grants", "step %d %s by caller %d: %s", i, op, op.Caller, msg), info
 		}
 		if op.Kind == "list" && c.HTTP {
 			if leak := containsAny(ht.LastBody, putValues); leak != "" {
